@@ -211,6 +211,15 @@ func (r *RootExpr) Validate() error {
 	if r.API == nil {
 		verr.Add(r, "Missing API declaration")
 	}
+	types := append([]UserType{}, r.Types...)
+	for _, rt := range r.ResultTypes {
+		types = append(types, rt)
+	}
+	for _, t := range types {
+		if t.Attribute().extendsItself() {
+			verr.Add(r, "type %q extends itself: the types it extends (Extend) lead back to it or to one of its attributes", t.Name())
+		}
+	}
 	for _, rt := range r.ResultTypes {
 		if view, ok := rt.AttributeExpr.Meta.Last(ViewMetaKey); ok {
 			if _, err := Project(rt, view); err != nil {
